@@ -8,7 +8,7 @@ namespace Fv.Cache.Conc
 set_option linter.unusedSimpArgs false
 
 def tidOf : HEv → Nat
-  | .inv t _ => t | .ret t _ => t | .rd t _ _ => t | .wr t _ _ => t | .rm t _ _ => t
+  | .inv t _ => t | .ret t _ => t | .rd t _ _ => t | .rdExp t _ => t | .wr t _ _ => t | .rm t _ _ => t
   | .upd t _ _ _ => t | .nf t _ => t | .oiIns t _ _ => t | .oiOcc t _ _ => t | .forget t _ _ => t
   | .clear t => t
 
@@ -21,7 +21,10 @@ deriving DecidableEq, Repr
 /-- `some r` iff `e` is a legal linearization event of `op`, with response `r` -/
 def linRes : Op → HEv → Option (Option Nat)
   | .get k, .rd _ k' r => if k' = k then some r else none
-  | .insert k v _, .wr _ k' v' => if k' = k ∧ v' = v then some none else none
+  | .get k, .rdExp _ k' => if k' = k then some none else none
+  | .peek k, .rd _ k' r => if k' = k then some r else none
+  | .peek k, .rdExp _ k' => if k' = k then some none else none
+  | .insert k v _ _, .wr _ k' v' => if k' = k ∧ v' = v then some none else none
   | .remove k, .rm _ k' r => if k' = k then some r else none
   | .compute k d, .upd _ k' _ d' => if k' = k ∧ d' = d then some (some 1) else none
   | .compute k _, .nf _ k' => if k' = k then some none else none
@@ -52,19 +55,20 @@ def phaseOf (t : Nat) (h : List HEv) : Option Ph :=
 
 def inMaint (m : MCtx) : Ph → Prop
   | .called (.maint sh _ f) => sh = m.sh ∧ f = m.full
-  | .lin (.insert _ _ _) none => m.full = false
+  | .lin (.insert _ _ _ _) none => m.full = false
   | _ => False
 
 /-- which phases are compatible with a program counter -/
 def compat (p : Ph) : PC → Prop
   | .idle => p = .idle
   | .done _ => p = .idle
-  | .rd k => p = .called (.get k)
-  | .ins k v c => p = .called (.insert k v c)
-  | .insSub k c _ => ∃ v, p = .lin (.insert k v c) none
-  | .insEv k c => ∃ v, p = .lin (.insert k v c) none
-  | .insAdd k c => ∃ v, p = .lin (.insert k v c) none
-  | .insMaint k => ∃ v c, p = .lin (.insert k v c) none
+  | .rd k false => p = .called (.get k)
+  | .rd k true => p = .called (.peek k)
+  | .ins k v c _ _ => ∃ o, p = .called (.insert k v c o)
+  | .insSub k c _ => ∃ v o, p = .lin (.insert k v c o) none
+  | .insEv k c => ∃ v o, p = .lin (.insert k v c o) none
+  | .insAdd k c => ∃ v o, p = .lin (.insert k v c o) none
+  | .insMaint k => ∃ v c o, p = .lin (.insert k v c o) none
   | .rm k => p = .called (.remove k)
   | .rmPol k v _ _ => p = .lin (.remove k) (some v)
   | .rmSub k v _ _ => p = .lin (.remove k) (some v)
@@ -83,6 +87,7 @@ def compat (p : Ph) : PC → Prop
   | .mNote m _ _ => inMaint m p
   | .mTtl m => inMaint m p
   | .mTtlMap m _ => inMaint m p
+  | .mTti m => inMaint m p
   | .mCapLoad m => inMaint m p
   | .mCapEvict m _ => inMaint m p
   | .mCapMap m _ _ => inMaint m p
@@ -186,6 +191,10 @@ macro_rules | `(tactic| invp_hstep) => `(tactic|
    first
    | (simp [foldPh, phStep, linRes, compat, inMaint]
       done)
+   | (obtain ⟨_, _, _, hq⟩ := hp
+      subst hq
+      simp [foldPh, phStep, linRes, compat, inMaint]
+      done)
    | (obtain ⟨_, _, hq⟩ := hp
       subst hq
       simp [foldPh, phStep, linRes, compat, inMaint]
@@ -222,7 +231,7 @@ macro_rules | `(tactic| invp_step $hi $h $f) => `(tactic|
    all_goals invp_close $hi))
 
 
-theorem compat_startPC (op : Op) : compat (.called op) (startPC op) := by
+theorem compat_startPC (c : Cfg) (n : Nat) (op : Op) : compat (.called op) (startPC c n op) := by
   cases op <;> simp [startPC, compat]
 
 theorem invP_call {c : Cfg} {s s' : State} {t : Nat} {op : Op} (hi : InvP s) (h : stepCall c s t op = some s') : InvP s' := by
@@ -233,7 +242,7 @@ theorem invP_call {c : Cfg} {s s' : State} {t : Nat} {op : Op} (hi : InvP s) (h 
     refine invP_frame hi _ _ _ rfl rfl (by intro e he; simp at he; subst he; rfl) ?_
     intro p hp
     simp_all only [compat]
-    exact ⟨_, rfl, compat_startPC op⟩
+    exact ⟨_, rfl, compat_startPC _ _ op⟩
 
 theorem invP_coopLock {c : Cfg} {s s' : State} {t : Nat} (hi : InvP s) (h : stepCoopLock c s t = some s') : InvP s' := by
   unfold stepCoopLock at h
@@ -242,7 +251,7 @@ theorem invP_coopLock {c : Cfg} {s s' : State} {t : Nat} (hi : InvP s) (h : step
   refine invP_nohist hi _ _ rfl rfl ?_
   intro p hp
   simp_all only [compat]
-  obtain ⟨v, c', hq⟩ := hp
+  obtain ⟨v, c', o, hq⟩ := hp
   subst hq
   exact compat_startDrain _ (by simp [inMaint])
 
@@ -279,6 +288,33 @@ theorem invP_ttlMap {c : Cfg} {s s' : State} {t : Nat} {sent : Bool} (hi : InvP 
     exact ⟨p, foldPh_forgets _ _ _ (inMaint_ne_idle hp), hp⟩
   · simp at h
 
+theorem invP_ttiMap {c : Cfg} {s s' : State} {t : Nat} {vs : List Nat} {sent : Bool} (hi : InvP s)
+    (h : stepTtiMap c s t vs sent = some s') : InvP s' := by
+  unfold stepTtiMap at h
+  split at h
+  · split at h
+    · simp at h; subst h
+      refine invP_nohist hi _ _ rfl rfl ?_
+      intro p hp
+      simp_all only [compat]
+    · simp at h; subst h
+      refine invP_frame hi _ _ _ rfl rfl (by intro e he; simp [forgetEvs] at he; obtain ⟨_, _, _, rfl⟩ := he; rfl) ?_
+      intro p hp
+      simp_all only [compat]
+      exact ⟨p, foldPh_forgets _ _ _ (inMaint_ne_idle hp), hp⟩
+  · simp at h
+
+theorem invP_read {c : Cfg} {s s' : State} {t : Nat} (hi : InvP s) (h : stepRead c s t = some s') : InvP s' := by
+  unfold stepRead at h
+  split at h
+  · rename_i k peek hpc
+    cases peek
+    all_goals
+      repeat' split at h
+      all_goals (simp at h; try subst h)
+      all_goals invp_close hi
+  · simp at h
+
 theorem invP_capMap {c : Cfg} {s s' : State} {t : Nat} {sent : Bool} (hi : InvP s)
     (h : stepCapMap c s t sent = some s') : InvP s' := by
   unfold stepCapMap at h
@@ -305,7 +341,8 @@ theorem invP_step {c : Cfg} {s s' : State} {t : Nat} {l : Label} (hi : InvP s) (
     InvP s' := by
   cases l <;> simp only [step] at h
   case call op => exact invP_call hi h
-  case read => invp_step hi h stepRead
+  case advance d => simp at h; subst h; exact ⟨hi.wf⟩
+  case read => exact invP_read hi h
   case insMap => invp_step hi h stepInsMap
   case insSub => invp_step hi h stepInsSub
   case insEv => invp_step hi h stepInsEv
@@ -329,6 +366,7 @@ theorem invP_step {c : Cfg} {s s' : State} {t : Nat} {l : Label} (hi : InvP s) (
   case evNote sent => invp_step hi h stepEvNote
   case ttlAdvance e => invp_step hi h stepTtlAdvance
   case ttlMap sent => exact invP_ttlMap hi h
+  case ttiMap vs sent => exact invP_ttiMap hi h
   case capLoad => invp_step hi h stepCapLoad
   case capEvict v r => invp_step hi h stepCapEvict
   case capMap sent => exact invP_capMap hi h
